@@ -22,6 +22,8 @@ Definition u32_be (x : Z) : bytes := rev (le_bytes 4 x). (* to_be_bytes *)
 Definition be_val (l : bytes) : Z := le_val (rev l).
 
 Definition two32 := 4294967296.
+(** linear-time reversal (List.rev is quadratic when executed) *)
+Definition frev {A} (l : list A) : list A := rev_append l [].
 
 (** opcodes (enum RdbOpcode) *)
 Definition OP_EOF := 255.
@@ -180,13 +182,13 @@ Definition read_string : rd -> rres bytes :=
     [fuel >= length input] iterations suffice; the counter stays in Z (a corrupt count
     can be 2^32-1) *)
 Fixpoint read_strings (fuel : nat) (n : Z) (acc : list bytes) : rd -> rres (list bytes) :=
-  if n <=? 0 then ret (rev acc) else
+  if n <=? 0 then ret (frev acc) else
   match fuel with
   | O => fail
   | S f => s <- read_string ;; read_strings f (n - 1) (s :: acc)
   end.
 Fixpoint read_pairs (fuel : nat) (n : Z) (acc : list (bytes * bytes)) : rd -> rres (list (bytes * bytes)) :=
-  if n <=? 0 then ret (rev acc) else
+  if n <=? 0 then ret (frev acc) else
   match fuel with
   | O => fail
   | S f => a <- read_string ;; b <- read_string ;; read_pairs f (n - 1) ((a, b) :: acc)
@@ -197,9 +199,10 @@ Fixpoint read_pairs (fuel : nat) (n : Z) (acc : list (bytes * bytes)) : rd -> rr
 
 (** f64 on bit patterns: partial_cmp without NaN is the order of sign-magnitude integers
     (with -0 = +0); NaN = exponent all ones, mantissa non-zero *)
-Definition two52 := 4503599627370496.
 Definition two63 := 9223372036854775808.
-Definition f_nan (b : Z) : bool := ((b / two52) mod 2048 =? 2047) && negb (b mod two52 =? 0).
+Definition f_inf := 9218868437227405312.     (* 0x7ff0000000000000 *)
+Definition f_mag (b : Z) : Z := if b <? two63 then b else b - two63.
+Definition f_nan (b : Z) : bool := f_inf <? f_mag b.
 Definition f_ord (b : Z) : Z := if b <? two63 then b else - (b - two63).
 Definition f_cmp (a b : Z) : option comparison :=
   if f_nan a || f_nan b then None else Some (f_ord a ?= f_ord b).
@@ -424,7 +427,7 @@ Definition lift_api {A} (a : A) (s : rd) (ds : list db) (r : option (list db)) :
   match r with Some ds' => SOk a s ds' | None => SErr s ds end.
 
 Fixpoint read_zitems (fuel : nat) (n : Z) (acc : list (bytes * Z)) : rd -> rres (list (bytes * Z)) :=
-  if n <=? 0 then ret (rev acc) else
+  if n <=? 0 then ret (frev acc) else
   match fuel with
   | O => fail
   | S f => m <- read_string ;; sc <- read_u64_le ;; read_zitems f (n - 1) ((m, sc) :: acc)
@@ -433,24 +436,24 @@ Fixpoint read_zitems (fuel : nat) (n : Z) (acc : list (bytes * Z)) : rd -> rres 
     returning what was read together with the failure *)
 Fixpoint read_zitems_partial (fuel : nat) (n : Z) (acc : list (bytes * Z)) (s : rd)
   : list (bytes * Z) * bool * rd :=
-  if n <=? 0 then (rev acc, true, s) else
+  if n <=? 0 then (frev acc, true, s) else
   match fuel with
-  | O => (rev acc, false, s)
+  | O => (frev acc, false, s)
   | S f => match read_string s with
-           | (None, s1) => (rev acc, false, s1)
+           | (None, s1) => (frev acc, false, s1)
            | (Some m, s1) => match read_u64_le s1 with
-                             | (None, s2) => (rev acc, false, s2)
+                             | (None, s2) => (frev acc, false, s2)
                              | (Some sc, s2) => read_zitems_partial f (n - 1) ((m, sc) :: acc) s2
                              end
            end
   end.
 Fixpoint read_strings_partial (fuel : nat) (n : Z) (acc : list bytes) (s : rd)
   : list bytes * bool * rd :=
-  if n <=? 0 then (rev acc, true, s) else
+  if n <=? 0 then (frev acc, true, s) else
   match fuel with
-  | O => (rev acc, false, s)
+  | O => (frev acc, false, s)
   | S f => match read_string s with
-           | (None, s1) => (rev acc, false, s1)
+           | (None, s1) => (frev acc, false, s1)
            | (Some x, s1) => read_strings_partial f (n - 1) (x :: acc) s1
            end
   end.
